@@ -96,6 +96,7 @@ func (x *Exec) VerifyFunc(fn *ssa.Function) (rep *FuncReport) {
 	for _, p := range fn.Params {
 		v := x.namedValue(p.Name(), p.Type())
 		x.assumeParamWF(st, v, p.Type())
+		x.assumeIfaceTyped(v, p.Type())
 		args = append(args, v)
 		f.regs[p] = v
 	}
